@@ -622,6 +622,20 @@ func streamNoPanic(c *ctx) {
 			}
 		}
 	}
+	// key_ops lists with members of every kind (byte strings, arrays, maps, floats ... among or instead of integers)
+	for i := 0; i < nk; i++ {
+		for _, l := range [][]any{{[]byte{9}}, {9, []any{}}, {map[any]any{}, 1}, {1, []byte{}}, {[]any{1}}, {1.5, 2}, {"1", 1}, {nil, 1}, {true}, {int64(1), uint64(2), []byte("x")}, {cbor.Tag{Number: 2, Content: []byte{1}}}} {
+			k2 := cloneKey(keys[i])
+			k2[iana.KeyParameterKeyOps] = l
+			keys = append(keys, k2)
+			if b, err := key.MarshalCBOR(k2); err == nil { // and as it arrives from CBOR
+				var k3 key.Key
+				if key.UnmarshalCBOR(b, &k3) == nil {
+					keys = append(keys, k3)
+				}
+			}
+		}
+	}
 	keys = append(keys, key.Key{}, key.Key{1: nil}, key.Key{"1": 4}, key.Key{int64(1): 4, 3: 5}, key.Key{1: 4, -1: nil}, key.Key{1: 2, -1: 1, -2: nil, -3: nil}, key.Key{1: 1, -1: 6, -4: nil})
 	for _, k := range keys {
 		k := k
